@@ -15,7 +15,7 @@ from ..core import CaseResult, Part, Violation, must_not_raise
 from ..runner import Check
 
 P = 'C08'
-DISTS = ['uniform', 'norm', 'expon', 'gamma', 'beta', 'truncnorm', 'custom']
+DISTS = ['uniform', 'norm', 'expon', 'gamma', 'beta', 'truncnorm', 'custom', 'custom-unif']
 NAMES = ['a', 'b', 'c', 'd', 'e', 'f', 'g', 'h', 'T', 'mu', 'Z9']
 
 
@@ -35,6 +35,26 @@ class CustomNorm(object):
     @classmethod
     def logpdf(cls, x, loc, scale):
         return ss.norm.logpdf(x, loc, scale)
+
+
+def _custom_unif():
+    """A user-defined prior in the style of elfi's MA2 example: an elfi.Distribution subclass that implements only rvs and pdf
+    (the log density is the inherited default) and has a bounded support."""
+    global _CU
+    if _CU is None:
+        import elfi
+
+        class CustomUnif(elfi.Distribution):
+            def rvs(loc, scale, size=1, random_state=None):
+                return ss.uniform.rvs(loc, scale, size=size, random_state=random_state)
+
+            def pdf(x, loc, scale):
+                return ss.uniform.pdf(x, loc, scale)
+        _CU = CustomUnif
+    return _CU
+
+
+_CU = None
 
 
 @st.composite
@@ -62,7 +82,7 @@ def model_desc(draw):
                 return ['p', n]
             return ['c', draw(st.integers(2, 12)) / 4.0]
         shape = lambda: ['c', draw(st.integers(2, 16)) / 4.0]
-        if dist in ('uniform', 'norm', 'expon', 'custom'):
+        if dist in ('uniform', 'norm', 'expon', 'custom', 'custom-unif'):
             args = [loc(), scale()]
         elif dist == 'gamma':
             args = [shape(), loc(), scale()]
@@ -91,13 +111,13 @@ def build(nodes):
     m = elfi.ElfiModel(name='c08model')
     for nd in nodes:
         args = [m[a[1]] if a[0] == 'p' else a[1] for a in nd['args']]
-        dist = CustomNorm if nd['dist'] == 'custom' else nd['dist']
+        dist = CustomNorm if nd['dist'] == 'custom' else (_custom_unif() if nd['dist'] == 'custom-unif' else nd['dist'])
         elfi.Prior(dist, *args, model=m, name=nd['name'])
     return m
 
 
 def _sdist(nd):
-    return ss.norm if nd['dist'] == 'custom' else getattr(ss, nd['dist'])
+    return ss.norm if nd['dist'] == 'custom' else (ss.uniform if nd['dist'] == 'custom-unif' else getattr(ss, nd['dist']))
 
 
 def ref_pdf(nodes, names, X, log=False):
@@ -125,7 +145,7 @@ def support(nd, row, names):
         return -np.inf, np.inf
     if d in ('expon', 'gamma'):
         return loc, np.inf
-    if d in ('uniform', 'beta'):
+    if d in ('uniform', 'beta', 'custom-unif'):
         return loc, loc + scale
     return loc + args[0] * scale, loc + args[1] * scale
 
@@ -294,7 +314,7 @@ def run_case(case):
         labels.append('boundary-points')
     if ng:
         labels.append('gradient-checked')
-    if any(nd['dist'] == 'custom' for nd in nodes):
+    if any(nd['dist'] in ('custom', 'custom-unif') for nd in nodes):
         labels.append('custom-distribution')
     nontrivial = True if (hier or kind != 'all-default') else None
     return CaseResult(sorted(set(labels)), nontrivial)
